@@ -18,7 +18,9 @@ READY = True
 RULE = ("routing: acyclic device graphs with 2-7 devices and 1-2 playfields, available_balls 0-2 per device, queries "
         "path / available ball / setup-or-queue for random (device, target) pairs; non-trivial = path of >= 3 hops "
         "or a queued request.  attempts: simulated machines as in C04 (two sources into one target, two-ball staging "
-        "device, entrance-counted lock, double kick-outs, leaks) with fault-heavy profiles (k consecutive stuck "
+        "device, entrance-counted lock, double kick-outs, leaks, eject attempts held by a queue-event handler, an outhole "
+        "with switch/event-confirmed late balls, a never-servable request (at the trough) queued in front of a servable "
+        "one) with fault-heavy profiles (k consecutive stuck "
         "ejects, balls falling back, confirmations after the timeout, lost balls) and max_eject_attempts 0/2/3/4; "
         "non-trivial = at least one failed attempt.  game: a real game (start button, ball start) with a ball_save "
         "(unlimited, eject_delay 0.8-2.5 s) and a multiball as request sources; two balls in play, two drains "
@@ -433,10 +435,7 @@ def oracle_att(case, out):
                               "target %s holds %s; sources %s)" %
                               (d, st, truth["dev"][d], t, truth["dev"].get(t, "-"), v["sources"])})
             # a queued request that could be served
-            if snap["plunger"][5] > 0 and snap["trough"][2] > 0 and snap["trough"][3] == "idle" and \
-                    snap["plunger"][3] in ("idle", "waiting_for_ball"):
-                fails.append({"sig": "servable-request-queued", "what": "plunger has %d queued requests while the idle "
-                              "trough has %d available balls" % (snap["plunger"][5], snap["trough"][2])})
+            fails += bc.starved_requests(case, out)
     return fails
 
 
